@@ -240,6 +240,12 @@ def x86_cases(f, mode, has_evex_sibling=True):
                 out.append(mk(full_operands(f, mode, mem_pos=j, ids=ids), "k+mem%d" % j, opt, ("k", 1), mem_pos=j))
                 if f["zmask"]:
                     out.append(mk(full_operands(f, mode, mem_pos=j, ids=ids), "kz+mem%d" % j, opt | X.OPT["z"], ("k", 1), mem_pos=j))
+    # {er} / {sae}: register-only decorations - no operand may be offered as a memory alternative under them
+    if base:
+        if f["er"]:
+            out.append(mk(base, "er", opt | X.ER_MODES["ru"]))
+        if f["sae"]:
+            out.append(mk(base, "sae", opt | X.OPT["sae"]))
     # immediates at the sign / width boundaries (the RW answer of mov depends on the immediate: a value that only the
     # imm64 register form can hold has no memory alternative)
     if base and base[-1][0] == "i" and name not in ("vpternlogd", "vpternlogq"):
